@@ -46,6 +46,10 @@ CLAIMED["C16"] = ("The timer state machine of conn_unix.go under the connection 
   "Not decided: timing itself ('fires on time, never early') and the race between a timer that has fired but not yet run and a renewal are properties of the runtime timer under real time (time.AfterFunc/Reset/Stop are trusted: Reset/AfterFunc arm for the given duration, Stop disarms); the durations are whatever time.Until returned. Keep-alive renewal in nbhttp (flushResponse, AddConn*) and websocket (handleWsMessage, Upgrade) is not under contract in this claim. The error-teardown exits of Write/Writev/flush/Sendfile leave the timers armed (harmless by C03).",
   "DESIGN.md 4 C16")
 
+CLAIMED["C09"] = ("The response writer of nbhttp/response.go and its call site in processor.go are under contract: WriteHeader, checkChunked, contentLength, eoncodeHead, formatInt, Write, writeChunk, Flush, flush, ReadFrom, flushResponse. Proved for every branch around the 64 KiB threshold and every connection result: a successful Write reports exactly len(data); conservation in both framings (bytes handed to the connection + bytes still buffered == bytes buffered before + the data + the chunk framing: size line + 4), which is what excludes dropped, duplicated or stale bytes; in the buffered chunk path the buffer holds size line, CR LF, the data (all positions), CR LF at exactly the expected offsets; bodyWritten advances by len(data); the final flush hands over everything buffered (identity framing) or everything buffered plus the 5-byte last chunk (no trailers) and keeps nothing; a chunked response has no Content-Length header; WriteHeader records any code in 100..999 once; ReadFrom sends head and pending body before the reader's bytes; flushResponse closes the connection exactly once when the request asked for it or the flush failed and never touches it for a hijacked response; panic-freedom (nil, index, slice bounds, map writes) of all of them.",
+  "Not decided (whole-wire clauses outside a per-function contract): that the concatenation of all writes parses as exactly one HTTP/1.x response in an independent client, header/trailer byte content of the head (eoncodeHead is proved for ownership, frame and safety, not for the text it emits), the hexadecimal value of the size line (its length class 1..8 and memory safety are proved), trailer bytes (only a lower bound on the last write), ReadFrom without a Content-Length (the code sends the reader's bytes unframed: noted in DESIGN.md), framing choice beyond 'chunked excludes Content-Length'. Assumed: net.Conn.Write / io.Writer.Write return len(b) on success (proved for nbio's own Conn under C01), io.Copy and the connection's Sendfile touch only the connection and the reader, net/http.Header methods touch only header maps, the allocator interface contract (C20), a Response is used by one goroutine at a time (C05/C10), the handler's data does not alias the response's pooled buffer.",
+  "DESIGN.md 4 C09")
+
 NA = {
  "C18": "termination of Stop/Shutdown and release of goroutines/descriptors for all histories is liveness + whole-process resource state; no contract within reach of a per-function deductive verifier decides it (DESIGN.md 4 C18)",
 }
